@@ -35,10 +35,9 @@ theorem C18_create_bucket_refines (H : Hashes) (dl : Nat) {s : State} (hi : Inv 
     abs (step H dl s (.createBucket b)).1 = (StoreSpec.step H (abs s) (.createBucket b)).1 ∧
     Inv (step H dl s (.createBucket b)).1 := createBucket_refines H dl hi hg
 
-/-- delete_bucket: deleted buckets are gone; partial — a bucket that still holds objects is excluded
-    (fs:delete-nonempty-bucket) -/
-theorem C18_delete_bucket_refines_partial (H : Hashes) (dl : Nat) {s : State} (hi : Inv s) {b : Bytes}
-    (hg : DeleteBucketOk s b) :
+/-- delete_bucket: full (any name both sides accept or both refuse) — a bucket that still holds objects is refused with
+    `BucketNotEmpty` by both and stays (dbc4627; before: fs:delete-nonempty-bucket), an empty bucket is gone -/
+theorem C18_delete_bucket_refines (H : Hashes) (dl : Nat) {s : State} (hi : Inv s) {b : Bytes} (hg : NameOk b) :
     (step H dl s (.deleteBucket b)).2 = (StoreSpec.step H (abs s) (.deleteBucket b)).2 ∧
     abs (step H dl s (.deleteBucket b)).1 = (StoreSpec.step H (abs s) (.deleteBucket b)).1 ∧
     Inv (step H dl s (.deleteBucket b)).1 := deleteBucket_refines H dl hi hg
@@ -272,7 +271,8 @@ def bob : Who := some [66]
 
 /-- a realistic history inside `Good`: bucket, writes with and without metadata (also over an object that had some),
     whole / ranged / suffix reads (suffix longer than the object, suffix of an empty object), a copy onto itself, head
-    (of an object and of a key that does not exist), prefix listing with marker, copy, delete, a multipart upload driven by its owner and refused to another identity -/
+    (of an object and of a key that does not exist), prefix listing with marker, copy, delete, a multipart upload driven by its owner and refused to another identity,
+    delete_bucket while the bucket holds objects (refused) and after they are deleted (the directory `d` is left behind) -/
 def demo : List Op := [
   .createBucket bka,
   .putObject bka kDE [1, 2, 3, 4, 5] (some [([109], [118])]) {} none,
@@ -302,6 +302,7 @@ def demo : List Op := [
   .getObject bka kX none,
   .createMultipartUpload bob bka kA none,
   .abortMultipartUpload bob bka kA (some 2),
+  .deleteBucket bka,
   .deleteObjects bka [kDE, kDF], .deleteObject bka kX,
   .deleteBucket bka,
   .listBuckets ]
@@ -321,6 +322,9 @@ example : CopyOk (run H0 4096 {} (demo.take 11)).1 bka kDE bka kDF := by decide
 /-- head_object of a key that does not exist in an existing bucket, and of a key in a bucket that does not exist -/
 example : HeadOk (run H0 4096 {} (demo.take 3)).1 bka kX := by decide
 example : HeadOk (run H0 4096 {} (demo.take 3)).1 [98, 107, 98] kX := by decide
+/-- delete_bucket of a bucket that holds objects is inside `Good` (any admissible name is), and is refused -/
+example : Good (run H0 4096 {} (demo.take 3)).1 (.deleteBucket bka) ∧
+    (step H0 4096 (run H0 4096 {} (demo.take 3)).1 (.deleteBucket bka)).2 = .err .BucketNotEmpty := by decide
 /-- a ranged part copy `bytes=1-3` from an existing object into the owner's upload -/
 example : UploadPartCopyOk (run H0 4096 {} (demo.take 22)).1 bka kX (some 1) 2 bka kDE
     (some [98, 121, 116, 101, 115, 61, 49, 45, 51]) := by decide
